@@ -1,6 +1,9 @@
 package lww
 
-import "fmt"
+import (
+	"fmt"
+	"sort"
+)
 
 // Workload families: instead of a handful of hand-written workloads, the E3 checks enumerate EVERY
 // word of length L over an alphabet of batch shapes (an environment choice of the explorer,
@@ -20,6 +23,7 @@ import "fmt"
 //	w  D(a) D(b)                    delete-only, two ids
 //	x  I(a) D(b)                    update + delete
 //	m  I(c,v) I(c,v')               same id twice in one batch
+//	z  D(every live id)             delete-only, empties every segment (not in the default alphabet)
 const FamilyAlphabet = "nubdwxm"
 
 // FamilyIDs lists every document id a family workload of length <= 6 can touch (plus one never used).
@@ -44,6 +48,8 @@ func Words(alphabet string, L int) []string {
 // BuildWord returns the batches of a word: the setup batch followed by one batch per letter.
 func BuildWord(word string) []Batch {
 	wl := []Batch{{{Kind: "I", ID: "a", V: 1}, {Kind: "I", ID: "b", V: 1}, {Kind: "I", ID: "k0", V: 3}, {Kind: "S", ID: "seq", V: 1}}}
+	live := New()
+	live.Apply(wl[0])
 	for i, c := range word {
 		j := i + 2 // batch number
 		v := 1 + j%3
@@ -63,9 +69,19 @@ func BuildWord(word string) []Batch {
 			b = Batch{{Kind: "I", ID: "a", V: v}, {Kind: "D", ID: "b"}}
 		case 'm':
 			b = Batch{{Kind: "I", ID: "c", V: v}, {Kind: "I", ID: "c", V: 1 + (j+1)%3}}
+		case 'z':
+			var all []string
+			for id := range live.Docs {
+				all = append(all, id)
+			}
+			sort.Strings(all)
+			for _, id := range all {
+				b = append(b, Op{Kind: "D", ID: id})
+			}
 		default:
 			panic("lww: unknown workload letter " + string(c))
 		}
+		live.Apply(b)
 		b = append(b, Op{Kind: "S", ID: "seq", V: j})
 		wl = append(wl, b)
 	}
@@ -73,13 +89,13 @@ func BuildWord(word string) []Batch {
 }
 
 // GatedWords is the word set of the gated family scenarios (word x gate menu): quick = every word of
-// length 2 over {b d x u}; thorough = every word of length 2 over the whole alphabet and of length 3
-// over {u b d w x}.
+// length 2 over {b d x u z}; thorough = every word of length 2 over the whole alphabet plus z and of
+// length 3 over {u b d x z}.
 func GatedWords(tier string) []string {
 	if tier == "thorough" {
-		return append(Words(FamilyAlphabet, 2), Words("ubdwx", 3)...)
+		return append(Words(FamilyAlphabet+"z", 2), Words("ubdxz", 3)...)
 	}
-	return Words("bdxu", 2)
+	return Words("bdxuz", 2)
 }
 
 // PlainWords is the word set of the un-gated family scenarios: quick = length 2 over the whole
